@@ -1,6 +1,6 @@
 (* C02 correspondence: spin<->binary conversions and edits through live views. *)
 From Coq Require Import List ZArith QArith Qcanon Bool Arith.
-From Dimod Require Import Base.Util Model.Poly Model.HPoly Model.View.
+From Dimod Require Import Base.Util Model.Poly Model.HPoly Model.View Model.Penalty.
 Import ListNotations.
 Open Scope Qc_scope.
 
@@ -21,9 +21,13 @@ Definition back_value (d : dir) (x : Qc) : Qc :=
 Inductive vop :=
 | VAddLin (v : label) (b : Qc) | VSetLin (v : label) (b : Qc)
 | VAddQuad (u v : label) (b : Qc) | VSetQuad (u v : label) (b : Qc)
-| VSetOff (b : Qc) | VScale (k : Qc).
+| VSetOff (b : Qc) | VScale (k : Qc)
+| VAddEq (terms : list lterm) (lam c : Qc).   (* add_linear_equality_constraint, distinct labels *)
 
-Definition apply_vop (o : vop) (p : poly) : poly :=
+(* vartype of the object the edit is issued on: the view shows the converted variables *)
+Definition view_vt (d : dir) : vartype := match d with S2B => BINARY | B2S => SPIN end.
+
+Definition apply_vop (d : dir) (o : vop) (p : poly) : poly :=
   match o with
   | VAddLin v b => add_linear v b p
   | VSetLin v b => set_linear v b p
@@ -31,6 +35,7 @@ Definition apply_vop (o : vop) (p : poly) : poly :=
   | VSetQuad u v b => set_quadratic u v b p
   | VSetOff b => mkPoly b (p_lin p) (p_quad p)
   | VScale k => scale k p
+  | VAddEq terms lam c => add_eq_cy (view_vt d) terms lam c p
   end.
 
 Inductive case :=
@@ -69,7 +74,7 @@ Definition check (c : case) : bool :=
   | ViewRead n d vars base view =>
       poly_coeff_eqb n (convert d vars (obs_poly base)) (obs_poly view)
   | ViewWrite n d vars base_before o base_after view_after =>
-      poly_coeff_eqb n (convert (inv_dir d) vars (apply_vop o (convert d vars (obs_poly base_before))))
+      poly_coeff_eqb n (convert (inv_dir d) vars (apply_vop d o (convert d vars (obs_poly base_before))))
                      (obs_poly base_after)
       && poly_coeff_eqb n (convert d vars (obs_poly base_after)) (obs_poly view_after)
       && formula_ok n d vars o base_before base_after
